@@ -32,4 +32,108 @@ pub fn run(r: &mut Report) {
     let p3 = format!("{}/c/", root);
     let got = no_panic(|| record_artifacts(&[sub.to_str().unwrap(), d.path().join("c").to_str().unwrap()], None, Some(&[p2.as_str(), p3.as_str()])));
     r.case("duplicate-key-is-an-error", json!({"files": ["a/b/x", "c/x"], "strip": ["a/b/", "c/"]}), "Err", format!("{:?}", got.as_ref().map(|x| x.as_ref().map(|m| m.len()).map_err(|e| e.to_string()))), matches!(&got, Ok(Err(_))));
+    trees(r);
+    run_step_before_after(r);
+}
+
+/// independent oracle: every regular file reachable under `root` (following symlinks to files and directories, never entering a
+/// directory twice on one path), keyed by the path as traversed
+fn oracle(root: &std::path::Path) -> std::collections::BTreeSet<String> {
+    fn go(p: &std::path::Path, stack: &mut Vec<std::path::PathBuf>, out: &mut std::collections::BTreeSet<String>) {
+        let md = match std::fs::metadata(p) { Ok(m) => m, Err(_) => return };   // follows links; dangling links are skipped
+        if md.is_file() { out.insert(p.to_str().unwrap().to_string()); return; }
+        if md.is_dir() {
+            let real = match std::fs::canonicalize(p) { Ok(c) => c, Err(_) => return };
+            if stack.contains(&real) { return; }      // a cycle: already inside this directory
+            stack.push(real);
+            let mut names: Vec<_> = std::fs::read_dir(p).unwrap().map(|e| e.unwrap().file_name()).collect();
+            names.sort();
+            for n in names { go(&p.join(n), stack, out); }
+            stack.pop();
+        }
+    }
+    let mut out = Default::default();
+    go(root, &mut vec![], &mut out);
+    out
+}
+
+fn trees(r: &mut Report) {
+    use std::os::unix::fs::symlink;
+    struct T { id: &'static str, build: fn(&std::path::Path) }
+    let ts = [
+        T { id: "nested-dirs-empty-dirs-odd-names", build: |d| {
+            for p in ["a/b/c", "empty", "sp ace", ".hidden", "u\u{e9}\u{20ac}"] { std::fs::create_dir_all(d.join(p)).unwrap(); }
+            for (p, c) in [("top", "1"), ("a/x", "2"), ("a/b/y", "3"), ("a/b/c/z", "4"), ("sp ace/f g", "5"), (".hidden/.dot", "6"), ("u\u{e9}\u{20ac}/n\u{e9}", "7"), ("empty_file", "")] { std::fs::write(d.join(p), c).unwrap(); }
+        } },
+        T { id: "absolute-symlink-to-file", build: |d| { std::fs::write(d.join("target"), "t").unwrap(); symlink(d.join("target"), d.join("link")).unwrap(); } },
+        T { id: "relative-symlink-to-file", build: |d| { std::fs::write(d.join("target"), "t").unwrap(); symlink("target", d.join("link")).unwrap(); } },
+        T { id: "relative-symlink-to-file-in-subdir", build: |d| { std::fs::create_dir_all(d.join("sub")).unwrap(); std::fs::write(d.join("sub/target"), "t").unwrap(); symlink("target", d.join("sub/link")).unwrap(); } },
+        T { id: "absolute-symlink-to-dir", build: |d| { std::fs::create_dir_all(d.join("real")).unwrap(); std::fs::write(d.join("real/f"), "t").unwrap(); symlink(d.join("real"), d.join("ldir")).unwrap(); } },
+        T { id: "relative-symlink-to-dir", build: |d| { std::fs::create_dir_all(d.join("real")).unwrap(); std::fs::write(d.join("real/f"), "t").unwrap(); symlink("real", d.join("ldir")).unwrap(); } },
+        T { id: "symlink-cycle-to-parent", build: |d| { std::fs::create_dir_all(d.join("a")).unwrap(); std::fs::write(d.join("a/f"), "t").unwrap(); symlink("..", d.join("a/up")).unwrap(); } },
+        T { id: "symlink-cycle-to-self-dir", build: |d| { std::fs::create_dir_all(d.join("a")).unwrap(); std::fs::write(d.join("a/f"), "t").unwrap(); symlink(d.join("a"), d.join("a/self")).unwrap(); } },
+        T { id: "symlink-to-symlink-to-file", build: |d| { std::fs::write(d.join("target"), "t").unwrap(); symlink(d.join("target"), d.join("l1")).unwrap(); symlink(d.join("l1"), d.join("l2")).unwrap(); } },
+    ];
+    for t in ts.iter() {
+        let d = crate::fixture::tmpdir();
+        let root = d.path().join("root");
+        std::fs::create_dir_all(&root).unwrap();
+        (t.build)(&root);
+        let want = oracle(&root);
+        let got = no_panic(|| record_artifacts(&[root.to_str().unwrap()], None, None));
+        let obs = match &got {
+            Ok(Ok(m)) => { let keys: std::collections::BTreeSet<String> = m.keys().map(|k| k.value().to_string()).collect();
+                           let mut digest_ok = true;
+                           for (k, h) in m.iter() { let data = std::fs::read(k.value()).unwrap_or_default(); let w = ring::digest::digest(&ring::digest::SHA256, &data);
+                               if h.get(&HashAlgorithm::Sha256).map(|v| v.value().to_vec()) != Some(w.as_ref().to_vec()) { digest_ok = false; } }
+                           if keys == want && digest_ok { "as-oracle".to_string() } else {
+                               format!("missing={:?} extra={:?} digests_ok={}", want.difference(&keys).map(|s| s.replace(root.to_str().unwrap(), "<root>")).collect::<Vec<_>>(),
+                                       keys.difference(&want).map(|s| s.replace(root.to_str().unwrap(), "<root>")).collect::<Vec<_>>(), digest_ok) } }
+            Ok(Err(e)) => format!("Err({})", e.to_string().replace(root.to_str().unwrap(), "<root>")),
+            Err(p) => format!("panic: {}", p),
+        };
+        r.case(&format!("tree-{}", t.id), json!({"tree": t.id, "expected_entries": want.len()}), "exactly the regular files reachable through links, each with its true sha256", obs.clone(), obs == "as-oracle");
+    }
+    // overlapping and non-normalised path arguments
+    let d = crate::fixture::tmpdir();
+    let root = d.path().join("root");
+    std::fs::create_dir_all(root.join("a")).unwrap();
+    std::fs::write(root.join("a/f"), "1").unwrap();
+    std::fs::write(root.join("g"), "2").unwrap();
+    let rs = root.to_str().unwrap().to_string();
+    let got = no_panic(|| record_artifacts(&[format!("{}/./a/../a", rs).as_str()], None, Some(&[format!("{}/", rs).as_str()])));
+    let keys = got.as_ref().ok().and_then(|x| x.as_ref().ok()).map(|m| m.keys().map(|k| k.value().to_string()).collect::<Vec<_>>());
+    r.case("non-normalised-argument", json!({"path": "<root>/./a/../a", "strip": "<root>/"}), "[\"a/f\"]", format!("{:?}", keys), keys == Some(vec!["a/f".to_string()]));
+    let got = no_panic(|| record_artifacts(&[rs.as_str(), format!("{}/a", rs).as_str()], None, None));
+    r.case("overlapping-arguments", json!({"paths": ["<root>", "<root>/a"]}), "Err (the same file would be recorded twice)", format!("{:?}", got.as_ref().map(|x| x.as_ref().map(|m| m.len()).map_err(|e| e.to_string().len()))), matches!(&got, Ok(Err(_))));
+    for algs in [vec!["sha256"], vec!["sha512"], vec!["sha256", "sha512"], vec!["sha512", "sha256"]] {
+        let got = no_panic(|| record_artifacts(&[rs.as_str()], Some(&algs), None));
+        let ok = matches!(&got, Ok(Ok(m)) if m.values().all(|h| h.len() == algs.len() && algs.iter().all(|a| h.contains_key(&if *a == "sha256" { HashAlgorithm::Sha256 } else { HashAlgorithm::Sha512 }))));
+        r.case("requested-algorithms", json!({"algorithms": algs}), "exactly the requested digests for every file", format!("{:?}", got.as_ref().map(|x| x.as_ref().map(|m| m.values().map(|h| h.len()).collect::<Vec<_>>()).map_err(|e| e.to_string()))), ok);
+    }
+    let got = no_panic(|| record_artifacts(&[rs.as_str()], Some(&["md5"]), None));
+    r.case("unknown-algorithm", json!({"algorithms": ["md5"]}), "Err", format!("{:?}", got.as_ref().map(|x| x.as_ref().map(|m| m.len()).map_err(|e| e.to_string()))), matches!(&got, Ok(Err(_))));
+}
+
+/// running a step: materials are the state before the command, products the state after it, byproducts its output and exit status
+fn run_step_before_after(r: &mut Report) {
+    let _g = crate::c08::CWD_LOCK.lock().unwrap();
+    let d = crate::fixture::tmpdir();
+    std::fs::write(d.path().join("keep"), "k").unwrap();
+    std::fs::write(d.path().join("modify"), "old").unwrap();
+    std::fs::write(d.path().join("delete"), "d").unwrap();
+    let old = std::env::current_dir().unwrap();
+    std::env::set_current_dir(d.path()).unwrap();
+    let res = no_panic(|| in_toto::runlib::in_toto_run("s", None, &["."], &["."], &["sh", "-c", "echo new > create; echo changed > modify; rm delete; echo out; echo err 1>&2; exit 7"], None, None, None));
+    std::env::set_current_dir(old).unwrap();
+    let obs = match &res {
+        Ok(Ok(mb)) => match &mb.metadata { in_toto::models::MetadataWrapper::Link(l) => {
+            let ks = |m: &std::collections::BTreeMap<in_toto::models::VirtualTargetPath, in_toto::models::TargetDescription>| m.keys().map(|k| k.value().to_string()).collect::<Vec<_>>();
+            let dig = |m: &std::collections::BTreeMap<in_toto::models::VirtualTargetPath, in_toto::models::TargetDescription>, k: &str| m.iter().find(|(p, _)| p.value() == k).and_then(|(_, h)| h.get(&HashAlgorithm::Sha256).map(|v| v.value().to_vec()));
+            format!("materials={:?} products={:?} modify_changed={} rv={:?} stdout={:?} stderr={:?}", ks(&l.materials), ks(&l.products),
+                    dig(&l.materials, "modify") != dig(&l.products, "modify"), l.byproducts.return_value(), l.byproducts.stdout(), l.byproducts.stderr()) }
+            _ => "layout".into() },
+        Ok(Err(e)) => format!("Err({})", e), Err(p) => format!("panic: {}", p) };
+    let want = "materials=[\"delete\", \"keep\", \"modify\"] products=[\"create\", \"keep\", \"modify\"] modify_changed=true rv=Some(7) stdout=Some(\"out\\n\") stderr=Some(\"err\\n\")";
+    r.case("run-records-before-and-after", json!({"command": "create, modify, delete, print, exit 7"}), want, obs.clone(), obs == want);
 }
